@@ -43,6 +43,23 @@ def run(chk):
 
 def replay(path):
     d = json.load(open(path))["detail"]["line"]
+    if isinstance(d.get("input"), dict) and set(d["input"]) == {"generated"}:
+        # a line of a systematic stage (objects built by the harness, sequences): re-run the stage and show the lines of the same name
+        from .. import common
+
+        class Quiet(object):
+            tier, seed = "quick", 0
+            import random as _r
+            rng = _r.Random(0)
+            notes, stages = {}, {}
+            scratch = common.tlc.make_scratch("replay")
+
+            def case(self, *a, **k):
+                pass
+        name = d.get("place") or d.get("ctx")
+        lines = [ln for ln in om.emit_lines(Quiet(), True) if (ln.get("place") or ln.get("ctx")) == name]
+        print(json.dumps({"recorded": {k: v for k, v in d.items() if k != "doc"}, "now": [{k: v for k, v in ln.items() if k not in ("doc", "output")} for ln in lines[:6]]}, indent=1, default=str)[:4000])
+        return 0
     if d.get("kind") == "state":
         print(json.dumps(d))
         return 0
